@@ -164,7 +164,23 @@ def check_grain(case):
     m.setGrainBoundaryMobility(case["M"])
     lo, hi = m.pbm.PSDbounds[0], m.pbm.PSDbounds[-1]
     f = lambda R: sum(a * np.exp(-(np.log(R / (lo + c * (hi - lo))) / w) ** 2) for a, c, w in case["modes"])
-    m.LoadDistributionFunction(f)
+    if case.get("data"):
+        m.LoadDistribution(np.array([lo + q * (hi - lo) for q in case["data"]]))
+        out.label("loaded_from_data")
+    else:
+        m.LoadDistributionFunction(f)
+    if case.get("pre_reset"):
+        # an earlier run on the same model, then reset(): the documented way back to the loaded distribution
+        gpre = m.grainGrowth(m.pbm.PSD)
+        if np.max(np.abs(gpre)) > 0:
+            so = sys.stdout
+            sys.stdout = io.StringIO()
+            try:
+                m.solve(0.4 * (m.pbm.PSDbounds[1] - m.pbm.PSDbounds[0]) / np.max(np.abs(gpre)) * case["pre_reset"], solverType=it)
+            finally:
+                sys.stdout = so
+        m.reset()
+        out.label("after_reset")
     z = case["z"]
     m._z = z
     # pure function: constrained growth
@@ -185,6 +201,7 @@ def check_grain(case):
             hist.append((gm.time[-1], gm.avgR[-1], gm.pbm.ThirdMoment(), gm.pbm.bins, gm.pbm.PSD.copy(), gm.pbm.PSDbounds.copy()))
     m.addCouplingModel(Obs())
     psd0, b0 = m.pbm.PSD.copy(), m.pbm.PSDbounds.copy()
+    v0 = float(m.pbm.ThirdMoment())          # total grain volume the run starts from
     so = sys.stdout
     sys.stdout = io.StringIO()
     try:
@@ -195,8 +212,8 @@ def check_grain(case):
     prevR, prevbins = m.avgR[0], len(psd0)
     remesh = 0
     for k, (t, R, v3, bins, psd, bnds) in enumerate(hist):
-        if not math.isclose(v3, 1.0, rel_tol=1e-9):
-            out.fail("grain_volume_not_conserved", "step %d: third moment of the grain size distribution is %r (normalised to 1)" % (k, v3))
+        if not math.isclose(v3, 1.0, rel_tol=1e-9) or not math.isclose(v3, v0, rel_tol=1e-9):
+            out.fail("grain_volume_not_conserved", "step %d: third moment of the grain size distribution is %r; the run started from %r (distributions are normalised to 1)" % (k, v3, v0))
             break
         if not np.all(np.isfinite(psd)) or np.any(psd < 0):
             out.fail("grain_psd_invalid", "step %d: grain size distribution negative or not finite" % k)
@@ -304,7 +321,9 @@ def _grain_case(draw):
             "gbe": draw(st.floats(0.1, 1.0)), "M": 10 ** draw(st.floats(-16, -11)),
             "modes": [[draw(st.floats(0.2, 1.0)), draw(st.floats(0.05, 0.5)), draw(st.floats(0.1, 0.5))] for _ in range(nm)],
             "z": draw(st.sampled_from([0.0, 0.0, 1.0])) * 10 ** draw(st.floats(2, 9)), "nsteps": draw(st.integers(5, 120)),
-            "calls": draw(st.sampled_from([[1.0], [0.5, 0.5], [0.2, 0.3, 0.5]])), "iterator": draw(st.sampled_from(["euler", "rk4"]))}
+            "calls": draw(st.sampled_from([[1.0], [0.5, 0.5], [0.2, 0.3, 0.5]])), "iterator": draw(st.sampled_from(["euler", "rk4"])),
+            "data": draw(st.one_of(st.none(), st.none(), st.lists(st.floats(0.02, 0.6), min_size=40, max_size=80))),
+            "pre_reset": draw(st.sampled_from([0, 0, 3, 20]))}
 
 
 @st.composite
@@ -329,7 +348,7 @@ def clauses():
         Clause("mixed_limits", _strength_case, check_mixed, quick=2500, thorough=100000,
                rule="same parameter generator; the mixed-dislocation formulas at 90 and 0 degrees against the edge and screw formulas (rtol 5e-3, simple J)"),
         Clause("graingrowth", _grain_case, check_grain, quick=250, thorough=8000, shrink=False,
-               rule="generator: grid, log-normal or bimodal grain size distribution, boundary energy/mobility, Zener drag {0, 1e2..1e9}, 5-120 steps split over 1-3 solve calls, both iterators; oracle: third moment 1 after every step, mean size non-decreasing without drag, drag never reverses/accelerates a boundary and freezes the structure when it exceeds every driving pressure; non-trivial: >= 5 steps"),
+               rule="generator: grid, log-normal or bimodal grain size distribution, boundary energy/mobility, Zener drag {0, 1e2..1e9}, 5-120 steps split over 1-3 solve calls, both iterators, distribution loaded from a function or from data, optionally after an earlier run and reset(); oracle: third moment after every step equals the one the run started from (1), mean size non-decreasing without drag, drag never reverses/accelerates a boundary and freezes the structure when it exceeds every driving pressure; non-trivial: >= 5 steps"),
         Clause("coupled", _coupled_case, check_coupled, quick=60, thorough=1500, shrink=False,
                rule="generator: toy binary precipitation scenario (1-3 solve calls) with a StrengthModel and a GrainGrowthModel attached from the start; after every host step: strength histories have exactly one entry per host row, grain-growth clock equals host clock (1e-9 rel); non-trivial: >= 30 host steps"),
     ]
